@@ -224,8 +224,22 @@ def write_summary_file_vue(stats, filepath, year=2025, currency_format="${amount
         return filter_expr.replace('==', '=').replace('&&', ' and ').replace('||', ' or ')
 
     # Helper function to create merchant IDs
-    def make_merchant_id(name):
+    def _base_merchant_id(name):
         return name.replace("'", "").replace('"', '').replace(' ', '_')
+
+    # IDs key the merchants in the report data, so two merchants must never share one
+    # ("A B" vs "A_B", "O'Neil" vs "ONeil"): later names get a numeric suffix.
+    merchant_ids = {}
+    for merchant_name in by_merchant:
+        base_id = _base_merchant_id(merchant_name)
+        merchant_id, n = base_id, 2
+        while merchant_id in merchant_ids.values():
+            merchant_id = f"{base_id}_{n}"
+            n += 1
+        merchant_ids[merchant_name] = merchant_id
+
+    def make_merchant_id(name):
+        return merchant_ids.get(name) or _base_merchant_id(name)
 
     # Build section merchants data
     def build_section_merchants(merchant_dict):
